@@ -11,6 +11,28 @@ use serde_json::json;
 pub struct C05 {
     sets: Vec<HlSet>,
     prefix_sets: Vec<(L, String, Titles)>,
+    typo_sets: Vec<(L, String, Titles)>,
+}
+
+/// stem + suffix words of 7-10 letters whose stems are (mostly) shorter than the word
+pub fn suffixed_words(l: L) -> Vec<String> {
+    let f = fam6(l);
+    let stems = all_strings(&f[..3], 5, 5);
+    let suffixes: Vec<&str> = match l {
+        L::De => vec!["en", "ern", "est", "ung"],
+        L::Fr => vec!["ement", "er", "es", "ant"],
+        L::Es => vec!["ando", "ar", "es", "os"],
+        L::Pt => vec!["ando", "ar", "es", "mente"],
+        L::Ru => vec!["ами", "ов", "ий", "ость"],
+        _ => vec!["er", "es", "ing", "ers"],
+    };
+    let mut out = Vec::new();
+    for s in &stems {
+        for x in &suffixes {
+            out.push(format!("{}{}", s, x));
+        }
+    }
+    out
 }
 
 impl C05 {
@@ -25,7 +47,89 @@ impl C05 {
             prefix_sets.push((l, format!("exact-prefix:F4-words<={}", tier.pick(6, 8)), Titles::Chars { fam: fam4(l).into_iter().filter(|c| *c != ' ').collect(), lo: 1, hi: tier.pick(6, 8) }));
             prefix_sets.push((l, format!("exact-prefix:F2-words<={}", tier.pick(5, 6)), Titles::Chars { fam: fam2(l).into_iter().filter(|c| *c != ' ').collect(), lo: 1, hi: tier.pick(5, 6) }));
         }
-        C05 { sets, prefix_sets }
+        let mut typo_sets = Vec::new();
+        let long_corpus: Vec<String> = corpus.iter().filter(|w| w.chars().count() >= 6).cloned().collect();
+        for l in LANGS {
+            typo_sets.push((l, "typo-queries:corpus-words>=6".to_string(), Titles::List(long_corpus.clone())));
+            typo_sets.push((l, "typo-queries:stem+suffix-words".to_string(), Titles::List(suffixed_words(l))));
+        }
+        C05 { sets, prefix_sets, typo_sets }
+    }
+
+    /// One-word titles x every query obtained by deleting one or two letters of the normalised word, typed
+    /// unfinished and finished: clauses (a) and (b) on every hit.
+    fn run_typos(&self, l: L, titles: &Titles, idx: u64, cx: &mut Cx) {
+        let title = titles.get(idx);
+        let Some(tok) = tok_record(l, &title) else { return };
+        if tok.words.len() != 1 {
+            cx.skip_pre();
+            return;
+        }
+        let recs = vec![rec(10, &title, 5), rec(20, &format!("{} {}", if l.is_cyrillic() { "щуп" } else { "quartz" }, title), 1)];
+        let Some(mut st) = cx.build_noted(l, &recs, None, Some((SENT_LS, SENT_RS))) else { return };
+        cx.state();
+        let maps: Vec<(usize, Option<(std::collections::BTreeSet<Gram>, WordMap)>)> = recs.iter().map(|r| (r.0, tok_record(l, &r.1).map(|t| (text_grams(&t), word_map(&t))))).collect();
+        let s = tok.words[0].slice;
+        let w: Vec<char> = tok.chars[s.0..s.1].to_vec();
+        let mut queries: Vec<String> = Vec::new();
+        for i in 0..w.len() {
+            let mut v = w.clone();
+            v.remove(i);
+            queries.push(v.iter().collect());
+            for j in i..v.len() {
+                let mut v2 = v.clone();
+                v2.remove(j);
+                queries.push(v2.iter().collect());
+            }
+        }
+        queries.sort();
+        queries.dedup();
+        for q0 in queries {
+            for q in [q0.clone(), format!("{} ", q0)] {
+                let Some(qt) = tokq(l, &q) else { continue };
+                if qt.words.len() != 1 {
+                    cx.skip_pre();
+                    continue;
+                }
+                let stretch = qt.words[0].slice.1 - qt.words[0].slice.0;
+                let qgrams = text_grams(&qt);
+                cx.eval();
+                let hits = match cx.search(&mut st, &q) {
+                    Ok(h) => h,
+                    Err(p) => {
+                        cx.undecided(&p, || format!("lang={} records={:?} query={:?}", l.tag(), recs, q));
+                        return;
+                    }
+                };
+                for (id, got) in &hits {
+                    let Some((_, Some((tgrams, map)))) = maps.iter().find(|m| m.0 == *id) else { continue };
+                    cx.validated();
+                    if tgrams.intersection(&qgrams).next().is_none() {
+                        cx.fail("C05:unrelated-hit", || json!({"lang": l.tag(), "ops": ops_json(&recs, None, Some((SENT_LS, SENT_RS)), &[&q]), "unrelated_hit": got}));
+                    }
+                    if let Ok(p) = parse_spans(got) {
+                        for (s0, e0) in &p.spans {
+                            let Some(wi) = map.words.iter().position(|w| w.0 == *s0) else { continue };
+                            let ps = map.padded[wi].0;
+                            let pe = (ps..map.pos.len()).find(|i| map.pos[*i] == *e0).unwrap_or(ps);
+                            let len = pe - ps;
+                            if len > stretch + 1 {
+                                cx.fail("C05:span-longer-than-typed", || {
+                                    json!({"lang": l.tag(), "ops": ops_json(&recs, None, Some((SENT_LS, SENT_RS)), &[&q]), "observed_title": got, "span_length": len, "typed_stretch": stretch,
+                                           "unit_test": unit_test_body(l, &recs, None, Some((SENT_LS, SENT_RS)), &[&q], &format!("    // span of {} normalised characters for a query of {}: {}\n", len, stretch, lit(got)))})
+                                });
+                            } else {
+                                cx.nontrivial();
+                                cx.class(if len == stretch + 1 { "typo:span=typed+1" } else if len == stretch { "typo:span=typed" } else { "typo:span<typed" });
+                                if cx.wants_sample() && len == stretch + 1 {
+                                    cx.sample(|| json!({"lang": l.tag(), "title": title, "query": q, "hit": got}));
+                                }
+                            }
+                        }
+                    }
+                }
+            }
+        }
     }
 
     fn run_prefix(&self, l: L, titles: &Titles, idx: u64, cx: &mut Cx) {
@@ -96,9 +200,16 @@ impl Prop for C05 {
         for (l, name, t) in &self.prefix_sets {
             d.push(Dom::new(format!("{}/{}", l.tag(), name), t.len(), 3000));
         }
+        for (l, name, t) in &self.typo_sets {
+            d.push(Dom::new(format!("{}/{}", l.tag(), name), t.len(), 100));
+        }
         d
     }
     fn run(&self, dom: usize, idx: u64, cx: &mut Cx) {
+        if dom >= self.sets.len() + self.prefix_sets.len() {
+            let (l, _, t) = &self.typo_sets[dom - self.sets.len() - self.prefix_sets.len()];
+            return self.run_typos(*l, t, idx, cx);
+        }
         if dom >= self.sets.len() {
             let (l, _, t) = &self.prefix_sets[dom - self.sets.len()];
             return self.run_prefix(*l, t, idx, cx);
@@ -186,7 +297,7 @@ impl Prop for C05 {
         }
     }
     fn rule(&self) -> String {
-        "sweep A: every title as a one-record store and inside two three-record stores (limit 10 and limit 1) x every query with at least one word, sentinel markers; every hit must share a gram (trigram or 1-/2-letter word start, recomputed from the public tokeniser) with the query and no span may exceed the typed stretch by more than one normalised character. sweep B (exact-prefix clause): every one-word title x every prefix of its normalised word ending in a letter or digit; the single span must cover exactly the typed characters of the original. Non-trivial = A: hit with a span whose length differs from the typed stretch (fuzzy / partial / multi-word); B: every validated prefix.".into()
+        "sweep A: every title as a one-record store and inside two three-record stores (limit 10 and limit 1) x every query with at least one word, sentinel markers; every hit must share a gram (trigram or 1-/2-letter word start, recomputed from the public tokeniser) with the query and no span may exceed the typed stretch by more than one normalised character. sweep C (typo queries): every one-word title of the corpus (>= 6 letters) and of a stem+suffix word list per language x every query obtained by deleting one or two letters, typed unfinished and finished - same two clauses. sweep B (exact-prefix clause): every one-word title x every prefix of its normalised word ending in a letter or digit; the single span must cover exactly the typed characters of the original. Non-trivial = A: hit with a span whose length differs from the typed stretch (fuzzy / partial / multi-word); B: every validated prefix.".into()
     }
     fn assumptions(&self) -> Vec<String> {
         vec![
